@@ -7,8 +7,10 @@ from gen import jsongen as G
 ID = "C01"
 LEVEL = "other"
 from lib.core import existing_modules
-LEAN_MODULES = existing_modules(["Sonic.Props.C01"]) + ["Sonic.Props.C05", "Sonic.Spec.Json"]
-REQUIRED_THEOREMS = []
+LEAN_MODULES = ['Sonic.Props.C01', 'Sonic.Props.C05']
+REQUIRED_THEOREMS = ["Sonic.Props.C01." + n for n in ["C01_skipSpace_naive", "C01_skipSpace_padded", "C01_skipSpace_cache_stable", "C01_literal", "C01_literal_spec",
+                                                         "C01_accept_iff", "C01_accept_iff_fresh", "C01_ok_offset", "C01_fail_shape", "C01_pad_irrelevant_partial",
+                                                         "C01_width_irrelevant_partial"]]
 CONFIGS = [("avx2", "prod"), ("sse", "prod"), ("avx2", "san"), ("sse", "san")]
 CONFIGS_THOROUGH = CONFIGS + [("dyn", "prod"), ("dyn", "san")]
 PARSE_CODES = {"1", "2", "3", "4", "5", "6", "7", "15"}
@@ -24,9 +26,12 @@ EXPLANATION = ("Oracle: Spec.Json.parse (Lean recursive-descent reader written f
                "parser refinement; the full accept-iff theorem is stated in Props/C01.lean when proved).")
 ASSUMPTIONS = ["SIMD primitives have their per-byte meaning", "Malloc(len+64) yields len+64 usable bytes (C16)"]
 TRUSTED = ["Spec.Json.parse as oracle (compiled Lean evaluation)"]
-LEVEL_TEXT = ("Partial proof + spec-oracle correspondence: the components (string decoder, number scanner, tables) are proved in Lean; the "
-              "whole-parser refinement is proved as far as listed in the evidence; every input of the run is decided by the executable RFC "
-              "8259 spec.")
+LEVEL_TEXT = ("Machine-checked refinement proof (Lean 4) of the whole parser: for every byte string, vector width 0<W<=63, padding and stale "
+              "node-stack content the literal model of parseImpl (goto state machine, cached whitespace bitmap, in-place string decoding, SAX "
+              "stack) accepts iff the RFC 8259 spec does (C01_accept_iff), success offset = length, failure => null document, parse code, offset "
+              "<= length. The theorems carry ONE explicit per-input hypothesis, NumberCorrectOn: the number-conversion model agrees with the exact "
+              "reference on the numbers of that input (C04 proves the grammar/integer/accumulation parts and validates the floating-point cores "
+              "per input) - hence level 'other' rather than 'proof'. Exact error code/offset independence of padding/width is _partial.")
 LEVEL_NOTE = "Trusted: Lean kernel; standard axioms; compiled Lean evaluation of the spec; harness."
 TECHNIQUE = "Lean 4 executable RFC 8259 spec as oracle + component theorems; differential correspondence"
 
